@@ -15,9 +15,11 @@ func init() {
 		Title: "Response status and length bookkeeping match what was actually sent",
 		Decided: "C15.a one counting gate: the wrapped writer's Write is called only inside (*Response).Write and its WriteHeader only inside (*Response).WriteHeader, and every encoder or writer built by the framework's response code is given the *Response, not the inner writer; a function that hands body bytes to the wrapped writer through a wider interface it asserted (ReadFrom, WriteString) adds what that call returned to contentLength; " +
 			"C15.b the gate books what was accepted: Write adds result #0 of the inner Write unconditionally (also when it returns an error) and returns that call's results unchanged, WriteHeader stores its argument and forwards the same argument, and the two counters are stored nowhere else (apart from the constructor's 200); " +
-			"C15.c every non-deprecated method from which the bookkeeping is reachable has a pointer receiver; C15.d in the response writing functions the error of every Write/Encode/nested writer call is returned on the path where it is non-nil, and the status is written before the first body byte.",
+			"C15.c every non-deprecated method from which the bookkeeping is reachable has a pointer receiver; C15.d in the response writing functions the error of every Write/Encode/nested writer call is returned on the path where it is non-nil, and the status is written before the first body byte. C15.f in the functions of the Response's writing API the error of a call that hands bytes towards the underlying writer is looked at.",
 		NotDecided: "that encoding/json and encoding/xml hand all bytes to Write; behaviour with a content coding in between (the property excludes it from the fault clause); user code that writes to the underlying http.ResponseWriter directly.",
 		Rules: []Rule{
+			{ID: "C15.f", Template: "T-ERR", Required: false, Run: ruleWriteErrorsKept,
+				Doc: "'The failing call returns that error': in the Response's writing functions a call that hands bytes towards the underlying writer (Write, WriteString, Flush, Encode, io.Copy, fmt.Fprint*) has its error result looked at. A buffered writer in front of the response whose Flush error is dropped makes the writing call return nil for a writer that failed."},
 			{ID: "C15.a", Template: "T-OWN", Required: true, Run: ruleC15a,
 				Doc: "One counting gate. A byte or status that reaches the wrapped writer by another route is not booked: ContentLength()/StatusCode() then lie to logging and metrics filters."},
 			{ID: "C15.b", Template: "T-PROV", Required: true, Run: ruleC15b,
